@@ -91,13 +91,40 @@ def run(cfg, nsteps=None, log=None):
     from ladim.model import Model
 
     model = Model(copy.deepcopy(cfg))
-    n = model.timer.Nsteps if nsteps is None else nsteps
-    for _ in range(n):
-        model.update()
-        if log is not None:
+    if log is not None:
+        orig = model.update
+
+        def logged():
+            orig()
             log.append(dict(step=model.timer.step, pid=[int(p) for p in model.state.pid], X=[float(x) for x in model.state.X], alive=[bool(a) for a in model.state.alive]))
+
+        model.update = logged
+    _main_time_loop()(model)
     model.finish()
     return model
+
+
+_LOOP = []
+
+
+def _main_time_loop():
+    """The time loop of the REAL ladim.main.main, extracted from its source (so that the harness runs what main runs)."""
+    if _LOOP:
+        return _LOOP[0]
+    import ast
+
+    import ladim
+
+    tree = ast.parse((Path(ladim.__file__).parent / "main.py").read_text())
+    fn = [n for n in tree.body if isinstance(n, ast.FunctionDef) and n.name == "main"][0]
+    loops = [st for st in fn.body if isinstance(st, (ast.For, ast.While)) and "model.update" in ast.unparse(st)]
+    if len(loops) != 1:
+        raise RuntimeError("cannot find the time loop of ladim.main.main")
+    src = "def time_loop(model):\n" + "\n".join("    " + ln for ln in ast.unparse(loops[0]).splitlines())
+    ns = {}
+    exec(src, ns)
+    _LOOP.append(ns["time_loop"])
+    return _LOOP[0]
 
 
 def read_records(files):
@@ -289,3 +316,190 @@ def protocol_bounded(p):
             sys.path.remove(str(pkg))
         samples.append(dict(ibm_log_head=lines[:3], records=len(recs)))
     return dict(cases=cases, failures=failures[:10], samples=samples, bound="one 12-step scenario with a logging IBM given by path; one path-vs-name precedence case")
+
+
+def mirror_bounded(p):
+    """C10: a reversed run S -> E equals, record for record, the forward run over the mirrored time axis in the
+    sign-flipped flow with mirrored release times; clock and time coordinate read S, S-dt, ..."""
+    tier = p.get("tier", "quick")
+    cases, failures, samples = 0, [], []
+    S = 3.0
+    layouts = [((0, 1, 2, 3, 4), [5]), ((0, 1.5, 2, 3, 4), [2, 3]), ((0, 1, 2, 3, 4), [1, 1, 1, 1, 1])]
+    if tier == "thorough":
+        layouts += [((0, 0.5, 1, 2.5, 3, 4), [3, 3]), ((0, 2, 4), [3])]
+    with Scratch() as d:
+        for li, (hours, files) in enumerate(layouts):
+            for sch in ("EF", "RK2", "RK4"):
+                for continuous in (False, True):
+                    if tier == "quick" and continuous and sch != "RK4":
+                        continue
+                    cases += 1
+                    rd, fd = d / f"r{cases}", d / f"f{cases}"
+                    rd.mkdir()
+                    fd.mkdir()
+                    write_forcing(rd, frame_hours=hours, files=files, sign=0.2)
+                    mh = tuple(sorted(2 * S - h for h in hours))
+                    # mirrored frames carry the sign-flipped field of the original frame at the mirrored time
+                    pos = 0
+                    fl = list(reversed(files))
+                    for fi, n in enumerate(fl):
+                        hrs = mh[pos : pos + n]
+                        pos += n
+
+                        def uu(t, tv, K, J, I):
+                            h = 2 * S - tv / 3600.0
+                            return -0.2 * (0.3 + 0.2 * K + 0.02 * J + 0.05 * h)
+
+                        def vv(t, tv, K, J, I):
+                            h = 2 * S - tv / 3600.0
+                            return -0.2 * (0.1 - 0.05 * K + 0.01 * I - 0.02 * h)
+
+                        make_roms_file(fd / f"f_{fi:03d}.nc", imax0=14, jmax0=12, kmax=4, times=[int(h * 3600) for h in hrs], u=uu, v=vv, h=60.0,
+                                       extra={"temp": lambda t, tv, K, J, I: 5.0 + K + 0.1 * (2 * S - tv / 3600.0) + 0 * I})
+                    rel_r = [(iso(3.0), 4.3, 5.2, 5.0), (iso(3.0), 6.1, 4.4, 30.0), (iso(2.0), 5.2, 6.3, 50.0)]
+                    rel_f = [(iso(2 * S - 3.0), 4.3, 5.2, 5.0), (iso(2 * S - 3.0), 6.1, 4.4, 30.0), (iso(2 * S - 2.0), 5.2, 6.3, 50.0)]
+                    kw = dict(continuous=True, freq=1800) if continuous else {}
+                    try:
+                        cr = base_config(rd, start_h=3.0, stop_h=0.5, advection=sch, release_rows=rel_r, period=1200, reversal=True, **kw)
+                        steps_r = []
+                        run(cr, log=steps_r)
+                        cf = base_config(fd, start_h=3.0, stop_h=5.5, advection=sch, release_rows=rel_f, period=1200, **kw)
+                        run(cf)
+                        rr, rf = read_records([rd / "out.nc"]), read_records([fd / "out.nc"])
+                    except BaseException as e:  # noqa: BLE001
+                        failures.append(dict(layout=li, scheme=sch, continuous=continuous, what=f"raised {type(e).__name__}: {e}"))
+                        continue
+                    bad = None
+                    t0 = 0.5 * 3600  # reference time = min(start, stop) of the reversed run
+                    if [t for t, _ in rr] != [3 * 3600 - t0 - k * 1200 for k in range(len(rr))]:
+                        bad = f"reversed time coordinate {[t for t, _ in rr][:4]} is not S, S-P, ..."
+                    elif len(rr) != len(rf):
+                        bad = f"{len(rr)} records reversed, {len(rf)} forward"
+                    else:
+                        for k, ((_tr, a), (_tf, b)) in enumerate(zip(rr, rf)):
+                            if set(a) != set(b) or any(max(abs(x - y) for x, y in zip(a[q], b[q])) > 1e-9 for q in a):
+                                bad = f"record {k} differs between the reversed run and the mirrored forward run"
+                                break
+                    if bad:
+                        failures.append(dict(layout=li, frames_h=hours, files=files, scheme=sch, continuous=continuous, what=bad))
+        samples.append(dict(frames_h=layouts[1][0], files=layouts[1][1], start_h=3.0, stop_h=0.5, schemes="EF/RK2/RK4", release="2 times, discrete/continuous"))
+    return dict(cases=cases, failures=failures[:10], samples=samples, bound=f"{len(layouts)} forcing layouts x schemes x discrete/continuous release, 15-step runs, 3 particles")
+
+
+def restart_compare(d, tag, nfile_boundary, advection="RK4", stop_h=2.0, period=1200, numrec=2, kill=True, continuous=True, rows=None):
+    """Cold split run; restart from the file ending at the given boundary; returns (failures, info)."""
+    from ladim.configure import configure_v2
+
+    rows = rows or [(iso(0), 4.3, 5.2, 5.0), (iso(0), 6.1, 4.4, 30.0), (iso(0), 5.0, 6.0, 10.0), (iso(1.0), 5.2, 6.3, 50.0)]
+    cold = d / f"{tag}_cold"
+    warm = d / f"{tag}_warm"
+    cold.mkdir()
+    warm.mkdir()
+    ibm = dict(module=str(d / "ibm_age"), kill_age=2400.0 if kill else 1e12)
+    common = dict(advection=advection, stop_h=stop_h, period=period, numrec=numrec, release_rows=rows, ibm=ibm, state_extra=dict(age=float),
+                  particle_variables=dict(release_time="time"), out_pvars=["release_time"], continuous=continuous, freq=1800)
+    cfg = base_config(d, out=f"{cold.name}/out.nc", **common)
+    cfg["state"]["default_values"]["age"] = 0.0
+    run(cfg)
+    cold_files = sorted(cold.glob("out_*.nc"))
+    if nfile_boundary >= len(cold_files) - 1:  # restarting after the last file: no record follows
+        return None, dict(files=len(cold_files))
+    rfile = cold_files[nfile_boundary]
+    nxt = f"{warm.name}/out_{nfile_boundary + 1:03d}.nc"
+    cfgw = base_config(d, out=nxt, **common)
+    cfgw["state"]["default_values"]["age"] = 0.0
+    cfgw["warm_start"] = dict(filename=str(rfile), variables=["age", "temp", "release_time"])
+    configure_v2(cfgw)
+    run(cfgw)
+    warm_files = sorted(warm.glob("out_*.nc"))
+    fails = []
+    exp_files = cold_files[nfile_boundary + 1 :]
+    if [f.name for f in warm_files] != [f.name for f in exp_files]:
+        fails.append(f"file names after restart {[f.name for f in warm_files]} != {[f.name for f in exp_files]}")
+    rc, rw = read_records(exp_files), read_records(warm_files)
+    # time coordinate is relative to each run's own reference time (its start): compare absolute times
+    def abs_times(files, recs):
+        out = []
+        k = 0
+        for f in files:
+            with Dataset(f) as nc:
+                units = nc.variables["time"].units
+                ref = np.datetime64(units.split("since")[1].strip().replace(" ", "T"))
+                for t in nc.variables["time"][:]:
+                    out.append(ref + np.timedelta64(int(round(float(t))), "s"))
+        return out
+
+    tc, tw = abs_times(exp_files, rc), abs_times(warm_files, rw)
+    if tc != tw:
+        fails.append(f"record times after restart {[str(t) for t in tw]} != uninterrupted {[str(t) for t in tc]}")
+    for k, ((_a, a), (_b, b)) in enumerate(zip(rc, rw)):
+        if set(a) != set(b):
+            fails.append(f"record {k} after restart: pids {sorted(b)} != uninterrupted {sorted(a)}")
+            break
+        dev = max((max(abs(x - y) for x, y in zip(a[q], b[q])) for q in a), default=0.0)
+        if dev > 1e-4:
+            fails.append(f"record {k} after restart differs from the uninterrupted run by {dev:.3g}")
+            break
+    # particle variables of the last files
+    for fc, fw in zip(exp_files, warm_files):
+        with Dataset(fc) as a, Dataset(fw) as b:
+            ra = np.ma.filled(a.variables["release_time"][:].astype(float), np.nan)
+            rb = np.ma.filled(b.variables["release_time"][:].astype(float), np.nan)
+            ua = np.datetime64(a.variables["release_time"].units.split("since")[1].strip().replace(" ", "T"))
+            ub = np.datetime64(b.variables["release_time"].units.split("since")[1].strip().replace(" ", "T"))
+            off = float((ub - ua) / np.timedelta64(1, "s"))
+            if len(ra) != len(rb) or not np.allclose(ra, rb + off, equal_nan=True):
+                fails.append(f"{fw.name}: particle variable release_time differs after restart (lengths {len(ra)} vs {len(rb)})")
+    return fails, dict(files=len(cold_files))
+
+
+IBM_AGE = """
+import numpy as np
+class IBM:
+    def __init__(self, modules, **kw):
+        self.modules = modules
+        self.kill_age = kw.get("kill_age", 1e12)
+        self.dt = modules["time"].dt / np.timedelta64(1, "s")
+    def update(self):
+        st = self.modules["state"]
+        st["age"] = st.age + self.dt
+        st.alive[st.age >= self.kill_age] = False
+    def close(self):
+        pass
+"""
+
+
+def restart_bounded(p):
+    """C08: every file boundary of split runs (continuous release, IBM deaths + leaving the grid, IBM state
+    variable, scalar forcing, three schemes, durations that are and are not multiples of the period)."""
+    tier = p.get("tier", "quick")
+    cases, failures, samples = 0, [], []
+    with Scratch() as d:
+        write_forcing(d, sign=0.6)
+        (d / "ibm_age.py").write_text(IBM_AGE)
+        combos = [("RK4", 2.0, 1200, 2), ("EF", 2.0, 1200, 1), ("RK2", 1.5, 1200, 2), ("RK4", 2.0 - 1 / 6, 1200, 2)]
+        if tier == "thorough":
+            combos += [("RK4", 2.0, 600, 3), ("EF", 1.5, 1800, 1)]
+        for ci, (sch, stop_h, period, numrec) in enumerate(combos):
+            for b in range(0, 6):
+                try:
+                    f, info = restart_compare(d, f"c{ci}b{b}", b, advection=sch, stop_h=stop_h, period=period, numrec=numrec)
+                except BaseException as e:  # noqa: BLE001
+                    f, info = [f"raised {type(e).__name__}: {e}"], {}
+                if f is None:
+                    break
+                cases += 1
+                if f:
+                    failures.append(dict(scheme=sch, stop_h=stop_h, period=period, numrec=numrec, restart_after_file=b, first=f[0], nfail=len(f)))
+        # history where the highest pids die without ever appearing in the restart file (pid reuse after restart)
+        rows = [(iso(0), 4.3, 5.2, 5.0), (iso(1 / 3), 11.3, 5.0, 5.0), (iso(1 / 3), 11.4, 5.5, 5.0), (iso(1.0), 5.2, 6.3, 50.0), (iso(1.0), 5.4, 6.1, 40.0)]
+        for b in (0, 1):
+            cases += 1
+            try:
+                f, info = restart_compare(d, f"pidreuse{b}", b, advection="EF", stop_h=2.0, period=2400, numrec=1, kill=False, continuous=False, rows=rows)
+            except BaseException as e:  # noqa: BLE001
+                f = [f"raised {type(e).__name__}: {e}"]
+            if f:
+                failures.append(dict(history="particles released at 20 min leave the grid before the next record", restart_after_file=b, first=f[0], nfail=len(f)))
+        samples.append(dict(scenario="continuous release every 30 min, IBM ages and kills at 40 min, strong flow leaving the grid, scalar forcing temp", restart="from every completed file"))
+    return dict(cases=cases, failures=failures[:12], samples=samples, bound=f"{len(combos)} scenario variants x every file boundary")
